@@ -119,13 +119,18 @@ CHECKS = {
     note="Trusted: dependencies' determinism (std, indexmap, kurbo, log); sort-key totality at the two sorted-vec sites; confirmed reasons were read by hand and are keyed per function.",
  ),
  "C08": dict(
-    technique="interval-checked conversion census (T-CAST) plus one dominating-guard rule",
+    technique="interval-checked conversion census (T-CAST: fallible conversions in the builder, narrowing casts in the readers) plus one dominating-guard rule",
     design_ref="DESIGN.md §4 C08",
-    text="Claimed for two structural clauses only. (a) 'building succeeds for every conflict-free mapping': in the cmap builder "
+    text="Claimed for three structural clauses only. (a) 'building succeeds for every conflict-free mapping': in the cmap builder "
          "every try_from/try_into whose failure becomes a panic, and every explicit panic, is infallible by interval analysis, "
          "has a confirmed reason, or is a known finding (F9: mappings that one format-4 subtable cannot express); the i16 idDelta "
          "defect (F3) was repaired. (b) skrifa's symbol-font fallback (retry at codepoint+0xF000) is dominated by the is_symbol "
-         "test. Lookup correctness, segment boundaries, enumeration order and variation sequences are value level and not decided.",
+         "test. (c) narrowing-cast census over skrifa/src/charmap.rs and read-fonts/src/tables/cmap.rs: every integer cast to a narrower "
+         "type is proved lossless by the interval analysis (a range test dominates it) or is one of eight confirmed sites (spec-defined "
+         "modulo-65536 arithmetic, indices of u16-counted arrays, ranges built from u16/u32 bounds); a new truncating cast of a code "
+         "point or glyph id, or the loss of the guard in front of one, is a violation. Lookup correctness, segment boundaries, "
+         "enumeration and variation sequences are value level and not decided (F33, an off-by-one that hid U+10FFFF from "
+         "enumeration, and F36, re-enumeration of overlapping format 12 groups, were found by seeding agents and repaired).",
     note="Trusted: interval domain; glyph ids are 16-bit (asserted at entry, part of the property's quantifier).",
  ),
  "C12": dict(
